@@ -35,6 +35,9 @@ BytesPerPixel(fmt) ==
     [] fmt \in {RGBA5551, RGB565, RGBA4, LA8} -> 2
     [] fmt \in {L8, A8} -> 1
 
+\* power-of-two sides from 8 up (the statement), as far as the u16 size fields of the containers reach usefully
+TexSides == {8, 16, 32, 64, 128, 256, 512, 1024}
+
 PayloadSize(fmt, w, h) ==
   IF fmt \in EtcFormats THEN EtcPayloadSize(w, h, fmt = ETC1A4)
   ELSE w * h * BytesPerPixel(fmt)
